@@ -5,6 +5,7 @@ CONSTANTS
   FlagSets <- AnyFlagSets
   EnvActs <- AllEnv
   FaultActs <- AllFault
+  UsesProfile <- LeafProfile
   MaxEnv = 0
 INIT TInit
 NEXT TNext
